@@ -446,3 +446,224 @@ func (c *Ctx) tableLookupOf(v ssa.Value) (ft *funcTable, keyVal ssa.Value, field
 	}
 	return nil, nil, -1, nil
 }
+
+// constTree: the value of a composite literal of constants, to any depth: structs (by field name), arrays and slices
+// (by position or constant key), maps with constant integer keys; leaves are integer, boolean or string constants.
+// A missing struct field, array element or map entry is the zero value (nil child: zeroOf tells the kind).
+type constTree struct {
+	kind   byte // 'i' int, 'b' bool, 's' string, 'S' struct, 'A' array/slice, 'M' map
+	i      int64
+	b      bool
+	s      string
+	fields map[string]*constTree
+	elems  map[int64]*constTree
+	typ    types.Type
+}
+
+// constTreeOf: the contents of a package-level variable that is never written after its initialisation and whose
+// initialiser is a composite literal of constants (nested to any depth); nil otherwise.
+func (c *Ctx) constTreeOf(o types.Object) *constTree {
+	if o == nil || o.Pkg() == nil {
+		return nil
+	}
+	if _, isVar := o.(*types.Var); !isVar {
+		return nil
+	}
+	key := "constTree:" + o.Pkg().Path() + "." + o.Name()
+	if t, ok := c.memo[key]; ok {
+		ct, _ := t.(*constTree)
+		return ct
+	}
+	c.memo[key] = (*constTree)(nil)
+	pkg := c.pkgOfTypes(o.Pkg())
+	if pkg == nil {
+		return nil
+	}
+	init := c.immutableVarInit(pkg, o)
+	if init == nil {
+		return nil
+	}
+	t := evalConstTree(pkg.TypesInfo, init, o.Type())
+	if t == nil {
+		return nil
+	}
+	c.memo[key] = t
+	return t
+}
+
+func evalConstTree(info *types.Info, e ast.Expr, t types.Type) *constTree {
+	for {
+		if p, ok := e.(*ast.ParenExpr); ok {
+			e = p.X
+			continue
+		}
+		break
+	}
+	if tv, ok := info.Types[e]; ok && tv.Value != nil {
+		switch tv.Value.Kind() {
+		case constant.Bool:
+			return &constTree{kind: 'b', b: constant.BoolVal(tv.Value), typ: t}
+		case constant.String:
+			return &constTree{kind: 's', s: constant.StringVal(tv.Value), typ: t}
+		case constant.Int:
+			if v, ok := constant.Int64Val(tv.Value); ok {
+				return &constTree{kind: 'i', i: v, typ: t}
+			}
+		}
+		return nil
+	}
+	if u, ok := e.(*ast.UnaryExpr); ok && u.Op == token.AND {
+		e = u.X
+		if p, ok := t.Underlying().(*types.Pointer); ok {
+			t = p.Elem()
+		}
+	}
+	cl, ok := e.(*ast.CompositeLit)
+	if !ok {
+		return nil
+	}
+	if lt := info.TypeOf(cl); lt != nil {
+		t = lt
+	}
+	if p, ok := t.Underlying().(*types.Pointer); ok {
+		t = p.Elem()
+	}
+	switch u := t.Underlying().(type) {
+	case *types.Struct:
+		out := &constTree{kind: 'S', fields: map[string]*constTree{}, typ: t}
+		for i, el := range cl.Elts {
+			name, val := "", el
+			var ft types.Type
+			if kv, ok := el.(*ast.KeyValueExpr); ok {
+				if id, ok := kv.Key.(*ast.Ident); ok {
+					name = id.Name
+				}
+				val = kv.Value
+			} else if i < u.NumFields() {
+				name = u.Field(i).Name()
+			}
+			for j := 0; j < u.NumFields(); j++ {
+				if u.Field(j).Name() == name {
+					ft = u.Field(j).Type()
+				}
+			}
+			if name == "" || ft == nil {
+				return nil
+			}
+			// a field that is not a constant (a function, say) stays unknown (nil); the rest of the struct is still known
+			out.fields[name] = evalConstTree(info, val, ft)
+		}
+		return out
+	case *types.Array, *types.Slice:
+		var et types.Type
+		if a, ok := u.(*types.Array); ok {
+			et = a.Elem()
+		} else {
+			et = u.(*types.Slice).Elem()
+		}
+		out := &constTree{kind: 'A', elems: map[int64]*constTree{}, typ: t}
+		idx := int64(0)
+		for _, el := range cl.Elts {
+			val := el
+			if kv, ok := el.(*ast.KeyValueExpr); ok {
+				k, ok := constInt(info, kv.Key)
+				if !ok {
+					return nil
+				}
+				idx = k
+				val = kv.Value
+			}
+			child := evalConstTree(info, val, et)
+			if child == nil {
+				return nil
+			}
+			out.elems[idx] = child
+			idx++
+		}
+		return out
+	case *types.Map:
+		out := &constTree{kind: 'M', elems: map[int64]*constTree{}, typ: t}
+		for _, el := range cl.Elts {
+			kv, ok := el.(*ast.KeyValueExpr)
+			if !ok {
+				return nil
+			}
+			k, ok := constInt(info, kv.Key)
+			if !ok {
+				return nil
+			}
+			child := evalConstTree(info, kv.Value, u.Elem())
+			if child == nil {
+				return nil
+			}
+			out.elems[k] = child
+		}
+		return out
+	}
+	return nil
+}
+
+// zeroConstTree: the zero value of a type as a constant tree (for a missing element or field).
+func zeroConstTree(t types.Type) *constTree {
+	switch u := t.Underlying().(type) {
+	case *types.Basic:
+		switch {
+		case u.Info()&types.IsBoolean != 0:
+			return &constTree{kind: 'b', typ: t}
+		case u.Info()&types.IsInteger != 0:
+			return &constTree{kind: 'i', typ: t}
+		case u.Info()&types.IsString != 0:
+			return &constTree{kind: 's', typ: t}
+		}
+	case *types.Struct:
+		return &constTree{kind: 'S', fields: map[string]*constTree{}, typ: t}
+	case *types.Array:
+		return &constTree{kind: 'A', elems: map[int64]*constTree{}, typ: t}
+	}
+	return nil
+}
+
+// index / field: one step into the tree (zero value for what the literal leaves out).
+func (t *constTree) index(k int64) (*constTree, bool) {
+	if t == nil {
+		return nil, false
+	}
+	switch t.kind {
+	case 'A':
+		if ch, ok := t.elems[k]; ok {
+			return ch, true
+		}
+		switch u := t.typ.Underlying().(type) {
+		case *types.Array:
+			if k >= 0 && k < u.Len() {
+				return zeroConstTree(u.Elem()), true
+			}
+		}
+		return nil, false
+	case 'M':
+		if ch, ok := t.elems[k]; ok {
+			return ch, true
+		}
+		if m, ok := t.typ.Underlying().(*types.Map); ok {
+			return zeroConstTree(m.Elem()), false
+		}
+	}
+	return nil, false
+}
+
+func (t *constTree) field(name string) *constTree {
+	if t == nil || t.kind != 'S' {
+		return nil
+	}
+	if ch, ok := t.fields[name]; ok {
+		return ch
+	}
+	if st, ok := t.typ.Underlying().(*types.Struct); ok {
+		for i := 0; i < st.NumFields(); i++ {
+			if st.Field(i).Name() == name {
+				return zeroConstTree(st.Field(i).Type())
+			}
+		}
+	}
+	return nil
+}
